@@ -5,18 +5,19 @@ set -u
 cd /verif
 id=${1:?property id}
 tier=${2:-${VERIF_TIER:-quick}}
+OUT=${VERIF_BUILD:-/verif/build}
 bin=vmc
 case "$id" in C12|C16) bin=vmcx;; esac
 if [ "$id" = C12 ]; then
-  # vmcx must be (re)generated first: the race build reuses its overlay
   if ! out=$(./build.sh vmcx 2>&1 && ./build.sh vmcxrace 2>&1); then
     echo "$out"
-    echo "BUILD FAILED: the checker could not be built against /repo's working tree"
+    echo "BUILD FAILED: the checker could not be built against the repository's working tree"
     exit 2
   fi
+  export VERIF_RACE_BIN=$OUT/vmcxrace
 elif ! out=$(./build.sh $bin 2>&1); then
   echo "$out"
-  echo "BUILD FAILED: the checker could not be built against /repo's working tree"
+  echo "BUILD FAILED: the checker could not be built against the repository's working tree"
   exit 2
 fi
-exec ./build/$bin check "$id" "$tier"
+exec $OUT/$bin check "$id" "$tier"
